@@ -321,6 +321,7 @@ func init() {
 		p.Quick = []HRun{
 			{Entry: "HarnessC08Case", Bound: "50 name occurrences (definitions and uses of inputs, secrets, outputs, job/step ids, matrix keys, env keys, contexts, properties, ['literal'] indices, functions, action inputs, fromJSON accessors) x all 2^n letter-case spellings each", Require: []string{"variant"}},
 			{Entry: "HarnessC08Keywords", Bound: "true/false/null in every spelling with an upper-case letter; string literal contents", Require: []string{"keyword-variant"}},
+			{Entry: "HarnessC08Diagnosed", Bound: "a workflow with name-dependent diagnostics (typed inputs / secret of a local reusable workflow call, needs outputs, action inputs): 5 call-site names with symbolic letter case keep every diagnostic in place", Require: []string{"variant"}},
 		}
 		p.Thorough = p.Quick
 		props["C08"] = p
@@ -336,8 +337,8 @@ func init() {
 		p.Quick = []HRun{
 			{Entry: "HarnessC09Frozen", Args: []int64{2}, Bound: "every chain base(12) + 2 segments(6 each) + symbolic property letter: no write to the job's scope types or built-in tables while it is checked", Require: []string{"checked"}},
 			{Entry: "HarnessC09Exprs", Args: []int64{2, 1}, Bound: "all pairs (earlier chain of depth 2, later chain of depth 1) in one job", Require: []string{"compared"}},
-			{Entry: "HarnessC09Jobs", Bound: "all ordered pairs of 11 job variants x both iteration orders of the jobs map", Require: []string{"compared"}},
-			{Entry: "HarnessC09FrozenJobs", Bound: "each of 11 job variants visited with the workflow-level scope types and built-in tables frozen; per-job scope reset", Require: []string{"visited"}},
+			{Entry: "HarnessC09Jobs", Bound: "all ordered pairs of 13 job variants x both iteration orders of the jobs map", Require: []string{"compared"}},
+			{Entry: "HarnessC09FrozenJobs", Bound: "each of 13 job variants visited with the workflow-level scope types and built-in tables frozen; per-job scope reset", Require: []string{"visited"}},
 		}
 		p.Thorough = []HRun{
 			{Entry: "HarnessC09FrozenJobs", Bound: "each job variant with frozen workflow-level scope types", Require: []string{"visited"}},
